@@ -25,8 +25,8 @@ import (
 // two keys whose slots fall on different lanes (slot parity) and different nodes
 var c14cKeys = c14cKeysSpread
 
-// c14cKeysColo: two keys on different lanes (slot parity) whose slots both belong to node 0: their
-// transactions share one node pipeline (scenario field Colo)
+// c14cKeysColo: two keys on different lanes (slot parity) whose slots both belong to node 0 (scenario
+// field Colo): in pipeline mode their transactions share one node pipeline
 var c14cKeysColo = func() [2]string {
 	var out [2]string
 	found := 0
@@ -161,9 +161,14 @@ type c14cScenario struct {
 	// and the output has a slot white list that contains only the slot of lane 0's key. A command
 	// the key table does not know is not slot-filtered, so lane 1's units are replayed as well.
 	Foo bool `json:"foo,omitempty"`
-	// Colo: the keys of both lanes live on node 0 (different slots): their transactions travel over one
-	// node pipeline, so what happens to the transaction in front is seen by the one queued behind it
+	// Colo: the keys of both lanes live on node 0 (different slots). In pipeline mode (one cluster client
+	// for all units) their transactions travel over one node pipeline, so what happens to the transaction in
+	// front is seen by the one queued behind it; in parallel mode each lane has a cluster client of its own
 	Colo bool `json:"colo,omitempty"`
+	// Burst: the stream items still to come arrive in ONE read (the explorer's 'item' action delivers all
+	// of them): several units are dispatched before any reply is read, so in pipeline mode several
+	// transactions are written to one node connection and are in flight together
+	Burst bool `json:"burst,omitempty"`
 	// Rekey > 0 (family 'failover'): from start number Rekey on the source reports a new replication id
 	// with the previous one as its second id; every start runs (*syncer).updateCheckpoint,
 	// StartPoint(ids), SetRunId(ids[0]) (see c14Scenario.Rekey)
@@ -399,7 +404,12 @@ func c14cExec(t *testing.T, scn c14cScenario, ch *mc.Chooser) (rec c14Rec, machi
 				case "item":
 					it := items[pos]
 					pos++
-					crashed = doEvent(func() { run.feed(it.Raw) })
+					raw := append([]byte(nil), it.Raw...)
+					for scn.Burst && pos < len(items) {
+						raw = append(raw, items[pos].Raw...)
+						pos++
+					}
+					crashed = doEvent(func() { run.feed(raw) })
 				case "topo":
 					st := scn.Topo[topo]
 					topo++
@@ -550,8 +560,16 @@ func oracleC19Bi(scn c14cScenario, rec *c14Rec) mc.Result {
 			perRun[k+"="+v] = map[int]int{}
 		}
 		perRun[k+"="+v][ru]++
-		if perRun[k+"="+v][ru] > 1 && scn.Cfg.Mode == "sync" {
-			return mc.Violation("a unit was committed twice within one run", "C19:bisync:repeat-in-run:"+mode, map[string]interface{}{"write": k + "=" + v, "run": ru, "history": describe()})
+		if perRun[k+"="+v][ru] > 1 {
+			// every bidirectional unit is a transaction: C19's "in transactional mode no command is executed
+			// twice within one run" holds in every mode. The shape says WHICH unit was repeated: one of the
+			// slot that migrates (its own redirect was followed twice) or one of a slot whose owner never
+			// changed (it only travelled behind a redirected transaction)
+			sig := "C19:bisync:repeat-in-run:" + mode
+			if len(scn.Topo) > 0 && k != c14cKeys[0] {
+				sig += ":behind-redirect"
+			}
+			return mc.Violation("a unit was committed twice within one run", sig, map[string]interface{}{"write": k + "=" + v, "run": ru, "history": describe()})
 		}
 	}
 	fin := rec.Runs[len(rec.Runs)-1]
